@@ -32,7 +32,21 @@ func (s *faultStore) GetCredential(_ context.Context, id []byte) (*webauthn.Cred
 	case "notFound":
 		return nil, webauthn.ErrCredentialNotFound
 	case "wrapped":
-		return nil, fmt.Errorf("storage layer: %w", webauthn.ErrCredentialNotFound)
+		// every shape in which errors.Is(err, ErrCredentialNotFound) holds: a chain, a longer chain, a join with the backend's own error,
+		// two %w in one message, a wrapper around a join
+		backend := errors.New("backend: no rows")
+		switch (len(id) + len(s.calls)) % 5 {
+		case 0:
+			return nil, fmt.Errorf("storage layer: %w", webauthn.ErrCredentialNotFound)
+		case 1:
+			return nil, fmt.Errorf("repository: %w", fmt.Errorf("storage layer: %w", webauthn.ErrCredentialNotFound))
+		case 2:
+			return nil, errors.Join(backend, webauthn.ErrCredentialNotFound)
+		case 3:
+			return nil, fmt.Errorf("get %x: %w (%w)", id, webauthn.ErrCredentialNotFound, backend)
+		default:
+			return nil, fmt.Errorf("repository: %w", errors.Join(webauthn.ErrCredentialNotFound, backend))
+		}
 	case "err":
 		return nil, errInjectedGet
 	}
@@ -283,7 +297,13 @@ func runAuthImplOn(rp *webauthn.RelyingParty, st *faultStore, op M) M {
 		}
 		// the response fields as a zero-copy decoder of a binary framing hands them over: consecutive sub-slices of ONE receive buffer
 		// (each field's capacity runs on into the fields behind it), so a callee that appends to a field writes into its neighbours
-		fields := oneBuffer(unhx(op["rawId"].(string)), unhx(op["authData"].(string)), unhx(op["sig"].(string)), unhx(op["cdj"].(string)), unhx(op["userHandle"].(string)))
+		userHandle := unhx(op["userHandle"].(string))
+		if n, _ := op["userHandleNil"].(bool); n {
+			userHandle = nil
+		} else if userHandle == nil {
+			userHandle = []byte{}
+		}
+		fields := oneBuffer(unhx(op["rawId"].(string)), unhx(op["authData"].(string)), unhx(op["sig"].(string)), unhx(op["cdj"].(string)), userHandle)
 		cred := &webauthn.PublicKeyAssertionCredential{RawID: fields[0],
 			Response: webauthn.AuthenticatorAssertionResponse{ClientDataJSON: fields[3], AuthenticatorData: fields[1],
 				Signature: fields[2], UserHandle: fields[4]}}
